@@ -659,3 +659,196 @@ Proof.
   intros Hm Hn s [|r1 t1] [|r2 t2] N1 N2 E; try congruence.
   rewrite !(run_concat W X xnew xstep xrooted dispatch Hm Hn). f_equal. exact E.
 Qed.
+
+(* ------------------------------------------------------------------ no octet of a delimiter reaches the XML parser *)
+(* [cov fs ps]: the k-th parser was given a beginning of the k-th frame of the stream (without its leading white
+   space); frames are what lies between the delimiters, so they contain no octet of a delimiter *)
+Inductive cov : list bytes -> list bytes -> Prop :=
+| cov_nil : forall ps, cov [] ps
+| cov_cons : forall f p fs ps, (exists t, blstrip p = f ++ t) -> cov fs ps -> cov (f :: fs) (p :: ps).
+
+Lemma pieces_fuel : forall n m b, (length b <= n)%nat -> (length b <= m)%nat -> pieces n b = pieces m b.
+Proof.
+  induction n as [|n IH]; intros m b Hn Hm.
+  - destruct b; [|cbn in Hn; lia]. destruct m; reflexivity.
+  - destruct m as [|m]; [destruct b; [reflexivity | cbn in Hm; lia]|].
+    cbn [pieces]. destruct (find_sub delim10 b) as [[x r]|] eqn:F; [|reflexivity].
+    apply find_some in F as [E _]. apply (f_equal (@length N)) in E. rewrite !app_length in E. cbn in E.
+    f_equal. apply IH; lia.
+Qed.
+
+Lemma frames_none b : find_sub delim10 b = None -> frames b = [b].
+Proof. unfold frames. destruct (length b); cbn [pieces]; [reflexivity|]. intros ->. reflexivity. Qed.
+
+Lemma frames_some b m r : find_sub delim10 b = Some (m, r) -> frames b = m :: frames r.
+Proof.
+  intros F. unfold frames. pose proof F as F'. apply find_some in F' as [E _].
+  apply (f_equal (@length N)) in E. rewrite !app_length in E. cbn in E.
+  destruct (length b) as [|k] eqn:L; [lia|]. cbn [pieces]. rewrite F. f_equal. apply pieces_fuel; lia.
+Qed.
+
+Lemma frames_nonempty b : exists p ps, frames b = p :: ps.
+Proof.
+  destruct (find_sub delim10 b) as [[m r]|] eqn:F; [rewrite (frames_some _ _ _ F) | rewrite (frames_none _ F)]; eauto.
+Qed.
+
+Lemma blstrip_suffix : forall b, exists ws, bblank ws = true /\ b = ws ++ blstrip b.
+Proof.
+  induction b as [|c b [ws [B E]]]; [exists []; auto|]. cbn [blstrip]. destruct (is_bws c) eqn:C.
+  - exists (c :: ws). split; [cbn [bblank forallb]; rewrite C; exact B | cbn; f_equal; exact E].
+  - exists []. auto.
+Qed.
+
+Lemma blstrip_head : forall b c q, blstrip b = c :: q -> is_bws c = false.
+Proof.
+  induction b as [|a b IH]; intros c q H; [discriminate|]. cbn [blstrip] in H. destruct (is_bws a) eqn:A; [eauto|].
+  injection H as <- _. exact A.
+Qed.
+
+Lemma find_blstrip b : find_sub delim10 (blstrip b) =
+  match find_sub delim10 b with Some (m, r) => Some (blstrip m, r) | None => None end.
+Proof.
+  destruct (blstrip_suffix b) as [ws [B E]]. rewrite E at 2. rewrite (blank_find_app ws _ B).
+  destruct (find_sub delim10 (blstrip b)) as [[m r]|] eqn:F; [|reflexivity].
+  rewrite (blstrip_blank_app ws m B). f_equal. f_equal.
+  destruct m as [|c m]; [reflexivity|]. apply find_some in F as [E2 _]. cbn [blstrip].
+  rewrite (blstrip_head _ _ _ E2). reflexivity.
+Qed.
+
+Lemma blstrip_prefix_app p h : exists t, blstrip (p ++ h) = blstrip p ++ t.
+Proof.
+  destruct (blstrip p) as [|c q] eqn:E.
+  - exists (blstrip h). cbn. apply blstrip_blank_app, blstrip_nil_blank, E.
+  - exists h. apply (blstrip_app_cons _ _ _ _ E).
+Qed.
+
+Section DriverProofs2.
+  Variables W X : Type.
+  Variable xnew : W -> X.
+  Variable xstep : W -> X -> N -> xres X.
+  Variable xrooted : X -> bool.
+  Variable dispatch : W -> bool -> bytes -> dres W.
+  Hypothesis Hnew : forall w, xrooted (xnew w) = false.
+
+  Local Notation feed' := (feed W X xstep xrooted).
+  Local Notation go' := (go W X xnew xstep xrooted dispatch).
+  Local Notation dom' := (dom_body W X xnew dispatch).
+  Local Notation fresh' := (fresh W X xnew).
+  Local Notation st' := (st W X).
+
+  Lemma feed_used w : forall m x, match feed' w x m with
+                                  | FOk _ _ => True
+                                  | FSwitch _ _ u | FErr u | FExc _ u => exists t, m = u ++ t
+                                  end.
+  Proof.
+    induction m as [|c m IH]; intros x; cbn [feed]; [exact I|].
+    destruct (xstep w x c) as [x' o|o| |e]; try (exists m; reflexivity).
+    specialize (IH x'). destruct (feed' w x' m); auto; destruct IH as [t ->]; exists t; reflexivity.
+  Qed.
+
+  (* a state at the beginning of a frame *)
+  Definition at_start (s : st') : Prop :=
+    (exists x sbuf, stat s = Run (Sax [] [] x sbuf) /\ xrooted x = false) \/ stat s = Run (Dom []).
+
+  Definition GOAL (n : nat) : Prop := forall (s : st') data F,
+    (length data < n)%nat -> at_start s -> fed s = [] :: F ->
+    exists fs, fed (go' n s data) = rev fs ++ F /\ cov fs (frames data).
+
+  Lemma cov_one u b : (exists t, blstrip b = u ++ t) -> forall ps, cov [u] (b :: ps).
+  Proof. intros H ps. constructor; [exact H | constructor]. Qed.
+
+  Lemma cont_frames n s' rem u F m : GOAL n -> (length rem < n)%nat -> at_start s' -> fed s' = [] :: u :: F ->
+    (exists t, blstrip m = u ++ t) ->
+    exists fs, fed (cont W X (go' n) s' rem) = rev fs ++ F /\ cov fs (m :: frames rem).
+  Proof.
+    intros IH L A Ef P. unfold cont. destruct (bblank rem).
+    - exists [u; []]. split; [rewrite Ef; reflexivity|]. destruct (frames_nonempty rem) as (p & ps & ->).
+      constructor; [exact P|]. apply cov_one. exists (blstrip p). reflexivity.
+    - destruct (IH s' rem (u :: F) L A Ef) as (fs & E & C). exists (u :: fs). split.
+      + rewrite E. cbn [rev]. rewrite <- app_assoc. reflexivity.
+      + constructor; assumption.
+  Qed.
+
+  Lemma fresh_start w o f : at_start (fresh' w o f).
+  Proof. left. eexists _, _. split; [reflexivity | apply Hnew]. Qed.
+
+  Lemma dom_frames n w o u F B : GOAL n -> (length B <= n)%nat ->
+    (forall p ps, frames B = p :: ps -> exists t, blstrip p = u ++ t) ->
+    exists fs, fed (dom' (go' n) w o (u :: F) B) = rev fs ++ F /\ cov fs (frames B).
+  Proof.
+    intros IH L P. unfold dom_body. rewrite find_blstrip.
+    destruct (find_sub delim10 B) as [[m rem]|] eqn:FB.
+    - rewrite (frames_some _ _ _ FB) in *. specialize (P _ _ eq_refl).
+      pose proof (find_rem_len _ _ _ FB) as LR.
+      destruct (dispatch w false (blstrip m)) as [w' reset|].
+      + destruct reset; apply (cont_frames n _ rem u F m); auto; try lia; try reflexivity.
+        * apply fresh_start.
+        * right. reflexivity.
+      + exists [u]. split; [reflexivity | apply cov_one, P].
+    - rewrite (frames_none _ FB) in *. exists [u]. split; [reflexivity | apply cov_one, (P _ _ eq_refl)].
+  Qed.
+
+  Lemma onx_frames n s sbuf data r u0 F ps m :
+    GOAL n -> (length data <= n)%nat -> fed s = [] :: F ->
+    frames data = m :: ps ->
+    match r with FOk _ _ => False | FSwitch _ _ u | FErr u | FExc _ u => u = u0 end ->
+    (exists t, blstrip m = u0 ++ t) ->
+    exists fs, fed (on_exc W X xnew dispatch (go' n) s [] sbuf data r) = rev fs ++ F /\ cov fs (frames data).
+  Proof.
+    intros IH L Ef Fr Hr P. assert (exists fs, [u0] ++ F = rev fs ++ F /\ cov fs (frames data)) as TERM.
+    { exists [u0]. split; [reflexivity | rewrite Fr; apply cov_one, P]. }
+    destruct r as [|rt o u|u|e u]; [contradiction|..]; subst u0; cbn [on_exc]; rewrite Ef; cbn [addfed app fed];
+      try exact TERM.
+    destruct rt; [exact TERM|]. destruct (negb (is_nil (sbuf ++ o))); [exact TERM|].
+    apply dom_frames; auto. intros p ps' E. rewrite Fr in E. injection E as <- _. exact P.
+  Qed.
+
+  Lemma go_frames : forall n, GOAL n.
+  Proof.
+    induction n as [|n IH]; intros s data F L A Ef; [lia|].
+    cbn [go]. destruct A as [(x & sbuf & St & R)|St]; rewrite St.
+    - cbn [app]. unfold started. rewrite R. cbn [is_nil negb orb].
+      destruct (find_sub delim10 data) as [[m rem]|] eqn:FD.
+      + pose proof (find_rem_len _ _ _ FD) as LR. pose proof (frames_some _ _ _ FD) as Fr.
+        pose proof (feed_used (wd s) (blstrip m) x) as FU.
+        destruct (feed' (wd s) x (blstrip m)) as [x' o|rt o u|u|e u] eqn:FE.
+        * destruct (dispatch (wd s) true (sbuf ++ o)) as [w' r|].
+          -- rewrite Fr. apply (cont_frames n _ rem (blstrip m) F m); auto; try lia.
+             ++ apply fresh_start.
+             ++ rewrite Ef. reflexivity.
+             ++ exists []. now rewrite app_nil_r.
+          -- exists [blstrip m]. split; [rewrite Ef; reflexivity | rewrite Fr; apply cov_one; exists []; now rewrite app_nil_r].
+        * eapply onx_frames; eauto; try lia; try reflexivity.
+        * eapply onx_frames; eauto; try lia; try reflexivity.
+        * eapply onx_frames; eauto; try lia; try reflexivity.
+      + pose proof (frames_none _ FD) as Fr. rewrite holdback_hb.
+        destruct (hb data) as [p h1] eqn:HB. pose proof (hb_split _ _ _ HB) as EP.
+        pose proof (feed_used (wd s) (blstrip p) x) as FU.
+        assert (forall u, (exists t, blstrip p = u ++ t) -> exists t, blstrip data = u ++ t) as PRE.
+        { intros u [t E]. destruct (blstrip_prefix_app p h1) as [t2 E2]. exists (t ++ t2).
+          rewrite EP, E2, E, app_assoc. reflexivity. }
+        destruct (feed' (wd s) x (blstrip p)) as [x' o|rt o u|u|e u] eqn:FE.
+        * exists [blstrip p]. split; [rewrite Ef; reflexivity | rewrite Fr; apply cov_one, PRE; exists []; now rewrite app_nil_r].
+        * eapply onx_frames; eauto; try lia; try reflexivity.
+        * eapply onx_frames; eauto; try lia; try reflexivity.
+        * eapply onx_frames; eauto; try lia; try reflexivity.
+    - cbn [app]. rewrite Ef. apply dom_frames; auto; try lia.
+      intros p ps E. exists (blstrip p). reflexivity.
+  Qed.
+End DriverProofs2.
+
+Lemma c18_delimiter_never_parsed W X xnew xstep xrooted dispatch :
+  (forall w x c x' o, xstep w x c = XOk x' o -> xrooted x = true -> xrooted x' = true) ->
+  (forall w, xrooted (xnew w) = false) ->
+  forall w reads, reads <> [] ->
+    cov (rev (fed (run W X xnew xstep xrooted dispatch (init W X xnew w) reads))) (frames (concat reads)).
+Proof.
+  intros Hm Hn w [|r rs] NE; [congruence|].
+  rewrite (run_concat W X xnew xstep xrooted dispatch Hm Hn). unfold parse.
+  destruct (go_frames W X xnew xstep xrooted dispatch Hn (S (size (init W X xnew w) + length (concat (r :: rs))))
+              (init W X xnew w) (concat (r :: rs)) []) as (fs & E & C).
+  - cbn. lia.
+  - left. eexists _, _. split; [reflexivity | apply Hn].
+  - reflexivity.
+  - rewrite E, app_nil_r, rev_involutive. exact C.
+Qed.
